@@ -409,3 +409,6 @@ TWINS = [
     Twin("rate-commuted", [(CHEM, "k: srat * v for k, v in zip(", "k: v * srat for k, v in zip(")]),
     Twin("rates-get-idiom", [(RSYS, "                if k not in result:\n                    result[k] = v\n                else:\n                    result[k] += v", "                result[k] = result.get(k, 0) + v")]),
 ]
+
+# shared rule A4 (no new state kept across calls)
+MUTANTS.append(Mutant("rate-expr-kept-on-the-reaction", [(CHEM, "            except AttributeError:\n                if isinstance(self.param, str):\n                    return MassAction.fk(self.param)", "            except AttributeError:\n                if isinstance(self.param, str):\n                    self._rate_expr = MassAction.fk(self.param)\n                    return self._rate_expr")], "C03-A4", "new-state"))
